@@ -63,7 +63,13 @@ def setup():
     import scinumtools.solver as S
     from scinumtools.solver import solver, tokens, operators, expression, atom
     guard = R.StepGuard.get([solver, tokens, operators, expression, atom])
-    return dict(S=S, guard=guard)
+    ctx = dict(S=S, guard=guard)
+    # which of the two scanner defects does this tree exhibit on their minimal witnesses?  The buggy twin of the
+    # argument scanner is configured accordingly, so that a defect that has been fixed is never blamed again.
+    unclosed = lambda ob: ob[0] == 'e' and ob[1] == 'Exception' and ob[2] == [repr('Unclosed parenthesis in')]
+    ctx['has_d2'] = unclosed(solve_real(ctx, 'sin(sin(1))'))
+    ctx['has_d3'] = unclosed(solve_real(ctx, 'pow(2,(1+1))'))
+    return ctx
 
 
 # ---------------------------------------------------------------- generation
@@ -164,7 +170,7 @@ def agrees(ob, ref):
     return close(ob[1], ref, 1e-9) and bool(ob[1]) == bool(ref)
 
 
-def judge_wellformed(ast, text, ob, ref):
+def judge_wellformed(ast, text, ob, ref, ctx):
     """-> ('ok'|'known'|'skip'|'dev', key or mechanism)"""
     if agrees(ob, ref):
         return ('ok', None)
@@ -172,12 +178,13 @@ def judge_wellformed(ast, text, ob, ref):
         return ('dev', 'no-result-within-step-budget')
     if ob[0] == 'e':
         if ob[1] == 'Exception' and ob[2] and ob[2][0] == repr('Unclosed parenthesis in'):
-            # buggy twins of the argument scanner: which defect(s) reject this text?
-            if R.scan_raises(text, True, False):
+            # buggy twin of the argument scanner: which of the defects present in this tree reject this text?
+            d2, d3 = ctx['has_d2'], ctx['has_d3']
+            if d2 and R.scan_raises(text, True, False):
                 return ('known', KEY_D2)
-            if R.scan_raises(text, False, True):
+            if d3 and R.scan_raises(text, False, True):
                 return ('known', KEY_D3)
-            if R.scan_raises(text, True, True):
+            if d2 and d3 and R.scan_raises(text, True, True):
                 return ('known', KEY_D2)
         if ob[1] in ('ZeroDivisionError', 'OverflowError') and R.d4_shape(ast):
             try:
@@ -257,7 +264,7 @@ def run_wf(ast, bseed, ctx, extra_classes, given_text):
         ob = solve_real(ctx, text)
         mon['step_guarded_calls'] += 1
         mon['reference_compares'] += 1
-        obs.append((text, ob, judge_wellformed(ast, text, ob, ref)))
+        obs.append((text, ob, judge_wellformed(ast, text, ob, ref, ctx)))
     if len(obs) == 2:
         mon['blank_pairs_compared'] += 1
     for n, (text, ob, (verdict, what)) in enumerate(obs):
